@@ -22,6 +22,26 @@ theorem split_shape (t : Str) :
   have := splitGo_lineStart t (some []) [] (by intro _; rfl)
   simpa using this
 
+/-- **No record start is missed**: wherever the text has a line start followed by
+    blanks/tabs and `$`, the split has a separator exactly there. -/
+theorem split_complete (t u b v : Str) (h : t = u ++ b ++ '$' :: v)
+    (hu : atLineStart u = true) (hb : b.all isBlank = true) :
+    ∃ before after, splitRecords t = before ++ (b ++ ['$']) :: after ∧
+      before.length % 2 = 1 ∧ before.flatten = u := by
+  subst h
+  rcases List.eq_nil_or_concat u with rfl | ⟨u0, c, rfl⟩
+  · refine ⟨[[]], (splitGo none v).1 :: (splitGo none v).2, ?_, rfl, rfl⟩
+    have := splitGo_blank_run b [] v hb
+    simp [splitRecords, this]
+  · have hc : c = '\n' := by
+      simp [atLineStart] at hu
+      exact hu
+    subst hc
+    obtain ⟨before, after, hp, hlen, hfl⟩ := pieces_complete u0 (some []) b v hb
+    refine ⟨before, after, ?_, hlen, by simpa using hfl⟩
+    simp only [pieces] at hp
+    simpa [splitRecords] using hp
+
 /-- `split_raw_record_name`: `raw_name + content == chunk` whenever the chunk is accepted. -/
 theorem raw_name_split (chunk n c : Str) (h : rawNameSplit chunk = some (n, c)) : n ++ c = chunk :=
   rawNameSplit_join chunk n c h
@@ -152,6 +172,19 @@ theorem with_ignored_lossless (s : Str) (r : String) (cs : List Node) (p : Optio
     (n : Node) (hc : coveringRoot s (.tree r cs p) = true)
     (h : withIgnored s (.tree r cs p) = .ok n) : n.str = s :=
   withIgnored_str s r cs p n hc h
+
+-- non-vacuity of `with_ignored_lossless`: a nested tree with gaps of every kind
+def exSrc : Str := ['A', ' ', '=', '\t', '1', ';', 'c', '\n']
+def exTree : Node :=
+  .tree "root" [.tree "stmt" [.tok "NAME" ['A'] (some (0, 1)), .tok "EQ" ['='] (some (2, 3)),
+    .tok "INT" ['1'] (some (4, 5))] (some (0, 5))] (some (0, 5))
+example : coveringRoot exSrc exTree = true := by decide
+example : (withIgnored exSrc exTree).toOption.map Node.leaves =
+    some [("NAME", ['A']), ("WS", [' ']), ("EQ", ['=']), ("WS", ['\t']), ("INT", ['1']),
+          ("COMMENT", [';', 'c']), ("NEWLINE", ['\n'])] := by
+  simp [withIgnored, exSrc, exTree, interleaveTree, interleaveChildren, interleave, interleaveGo, gapToks, slice,
+    tokenizeIgnored, Node.range, isWS, isLF, notLF, Except.map, toNodes, IgnTok.toNode, Node.leaves, leavesList,
+    IgnKind.name, Except.toOption]
 
 /-! ## NMTranControlStream record operations: frame -/
 
